@@ -63,6 +63,7 @@ contract(
 contract(
     "esutil.stat.util.interplin",
     params=dict(vin="arr[real]", xin="arr[real]", uin="arr[real]"),
+    returns="arr[real]",
     requires={"table": "len(xin) >= 2 and len(vin) == len(xin)",
               "strictly-increasing": "all(xin[i] < xin[j] for i in range(0, len(xin)) for j in range(i + 1, len(xin)))"},
     ensures={
